@@ -540,6 +540,8 @@ type inliner struct {
 	res         *NormResult
 	voc         *Vocab
 	rel         string
+	// imports (name -> path) the text being inlined needs in the caller's file; collected per call, emitted per file
+	needImports map[string]string
 }
 
 // callee is what gets inlined: a declared function / method or a closure literal.
@@ -852,6 +854,15 @@ func (in *inliner) sameOutside(c *calleeInfo, call *ast.CallExpr, nodes ...ast.N
 			}
 			_, at := scope.LookupParent(id.Name, call.Pos())
 			if at == nil {
+				// a package the callee's file imports and the caller's does not: the import is added to the caller's
+				// file (the name is free there, or LookupParent would have found something)
+				if pn, isPkg := o.(*types.PkgName); isPkg {
+					if in.needImports == nil {
+						in.needImports = map[string]string{}
+					}
+					in.needImports[pn.Name()] = pn.Imported().Path()
+					return true
+				}
 				reason = "identifier " + id.Name + " is not visible at the call"
 				return true
 			}
@@ -1095,6 +1106,7 @@ func (in *inliner) fileEdits(f *ast.File, fname string, src []byte) []textEdit {
 	var edits []textEdit
 	usedHost := map[ast.Stmt]bool{}
 	kept := map[types.Object]bool{}
+	addedImports := map[string]string{}
 	var taken [][2]token.Pos
 	ast.Inspect(f, func(n ast.Node) bool {
 		call, ok := n.(*ast.CallExpr)
@@ -1138,6 +1150,7 @@ func (in *inliner) fileEdits(f *ast.File, fname string, src []byte) []textEdit {
 			return true
 		}
 		// (the type expressions of the signature are checked where their text is actually emitted)
+		in.needImports = nil
 		if why := in.sameOutside(c, call, c.body); why != "" {
 			refuse(why)
 			return true
@@ -1158,6 +1171,13 @@ func (in *inliner) fileEdits(f *ast.File, fname string, src []byte) []textEdit {
 		}
 		usedHost[host] = true
 		usedHost[s0] = true
+		for name, path := range in.needImports {
+			if addedImports[name] == "" {
+				addedImports[name] = path
+				off := in.offset(f.Name.End())
+				edits = append(edits, textEdit{off: off, end: off, text: fmt.Sprintf("; import %s %q", name, path), prio: 3})
+			}
+		}
 		if c.keepAfter.IsValid() && !kept[c.obj] {
 			kept[c.obj] = true
 			if _, kf := in.fileOf(c.keepAfter); kf == fname {
